@@ -154,6 +154,32 @@ func genLife(seed int64, allow map[string]bool) *Scenario {
 	k := 2 + r.Intn(min(b.sc.N-1, 3))
 	b.seatPlayers(k)
 	b.add(Op{Op: "start"})
+	if r.Intn(12) == 0 {
+		// the blind structure is not set yet when the first hand is due: tableGameOpen sleeps and retries with the
+		// engine lock held; what lands during the sleep (no lock needed) decides what the retry may do
+		b.sc.Blind = []int64{0, 0, 0, 0, 0}
+		set := Op{Op: "blind", Blind: []int64{1, 0, 0, 1, 2}}
+		var ops []Op
+		switch r.Intn(6) {
+		case 0:
+			ops = []Op{set}
+		case 1:
+			ops = []Op{{Op: "close"}, set}
+		case 2:
+			ops = []Op{{Op: "release"}, set}
+		case 3:
+			ops = []Op{set, {Op: "close"}}
+		case 4:
+			ops = []Op{{Op: "pause"}, set}
+		default:
+			ops = []Op{{Op: "blind", Blind: []int64{-1, 0, 0, 0, 0}}}
+		}
+		hp := b.plan()
+		hp.Inj = []Inj{{At: "g:open.retry", Ops: ops}}
+		b.hand(hp)
+		b.hand(b.plan())
+		return b.sc
+	}
 	newBlind := func() []int64 {
 		if r.Intn(4) == 0 {
 			return []int64{-1, 0, 0, 0, 0} // break
